@@ -96,11 +96,21 @@ def writeLoop : Nat → List Int → List Value → List Value × List (Nat × I
     let r := writeLoop (i + 1) ss os
     if o = .int s then (o :: r.1, r.2) else (.int s :: r.1, (i, s) :: r.2)
 
-/-- `sort_cb_input` for input `index` whose channel now reads `cur`.
+/-- The recomputation of `sorted` in `sort_cb_input` (sort.c:106-112):
+    `sort_replace` once `copied`, else `memcpy` + `qsort` (first call).
     `qs` is libc `qsort` with `cmp_int64` (a parameter: the theorems assume
-    only that it returns a sorted permutation).  Returns the new state and the
-    writes performed on the output channels.  An `index ≥ n` cannot be
-    registered in C (`sort_set_input` indexes `inputs[n]`); it is ignored. -/
+    only that it returns a sorted permutation). -/
+def nextSorted (qs : List Int → List Int) (st : State) (index : Nat) (new : Int) : List Int :=
+  if st.copied then
+    match sortReplace st.sorted (rd st.values index) new with
+    | some a => a
+    | none => st.sorted            -- unreachable: the caller checked old ≠ new
+  else qs (st.values.set index new)
+
+/-- `sort_cb_input` for input `index` whose channel now reads `cur`.
+    Returns the new state and the writes performed on the output channels.
+    An `index ≥ n` cannot be registered in C (`sort_set_input` indexes
+    `inputs[n]`); it is ignored. -/
 def cbInput (qs : List Int → List Int) (st : State) (index : Nat) (cur : Value) :
     State × List (Nat × Int) :=
   let new := cur.toInt
@@ -108,15 +118,9 @@ def cbInput (qs : List Int → List Int) (st : State) (index : Nat) (cur : Value
   /- Nothing to do if no change -/
   if old = new ∨ st.n ≤ index then (st, [])
   else
-    let values := st.values.set index new
-    let sorted :=
-      if st.copied then
-        match sortReplace st.sorted old new with
-        | some a => a
-        | none => st.sorted            -- unreachable: old ≠ new here
-      else qs values
+    let sorted := nextSorted qs st index new
     let r := writeLoop 0 sorted st.outs
-    ({ st with values := values, sorted := sorted, copied := true, outs := r.1 }, r.2)
+    ({ st with values := st.values.set index new, sorted := sorted, copied := true, outs := r.1 }, r.2)
 
 /-- A history of input changes `(index, value read from the input channel)`. -/
 def run (qs : List Int → List Int) (st : State) : List (Nat × Value) → State
